@@ -28,6 +28,15 @@ type IntV struct {
 	Tab    *TabRef  // (ranges only) the value is Vals[Idx(t)] of a constant table
 	LenOf  string   // (ranges only) the value is the length of this container (a canonical description)
 	SB     *StrByte // (ranges only) the value is byte Idx of string S
+	Sep    *SepRef  // (ranges only) the value is the position of a separator in what is left of the tokeniser's input
+}
+
+// SepRef: Off more than the position, within Join(Toks[K:], sep), of the separator that ends
+// token K (there is one: K is not the last token).
+type SepRef struct {
+	Toks *TokensV
+	K    int64
+	Off  int64
 }
 
 // StrByte: one byte of a string value.
@@ -213,6 +222,7 @@ const (
 	skTop
 	skArrElem // element Idx of the local string slice Arr (a snapshot), inside a loop
 	skSrc     // the content of an external source: S names the kind ("download"), X is its address
+	skCursor  // what is left of the tokeniser's input from token Idx on: Join(Toks[Idx:], Sep)
 )
 
 type StrV struct {
@@ -247,6 +257,8 @@ func (s StrV) String() string {
 			p[i] = x.String()
 		}
 		return strings.Join(p, "+")
+	case skCursor:
+		return fmt.Sprintf("%s[%v:]", s.Toks.String(), s.Idx.L)
 	case skTok:
 		return fmt.Sprintf("%s[%v]", s.Toks.String(), s.Idx.L)
 	case skJoin:
